@@ -1044,6 +1044,49 @@ def crash_histories(tier):
     return 2 if tier == 'quick' else 12
 
 
+def check_pinned_reader(ctx, scratch, between):
+    """A reader opened on "the latest generation" that loads its states one by one while other processes commit new
+    generations in between: every state it loads is of the generation it resolved first (never a mix of two runs)."""
+    from forml.io import asset
+
+    from vlib import c05_view, projgen
+
+    ctx.count('evaluations')
+    ctx.count('pinned_reader_checked')
+    root = tempfile.mkdtemp(prefix='c05-pinned-', dir=scratch)
+    srcdir = os.path.join(root, 'src')
+    registry = os.path.join(root, 'registry')
+    os.makedirs(registry)
+    publish = {'op': 'publish', 'project': 'pr', 'version': '1.0', 'kind': 'zipfile', 'payload': 1, 'extra': 0, 'big': False}
+    witness = {'pinned_reader': between}
+    try:
+        source, _ = build_package(srcdir, publish)
+        perform(projgen.directory(registry), publish, source)
+
+        def train(seed):
+            c05_view.forget()
+            return perform(projgen.directory(registry), {'op': 'train', 'project': 'pr', 'release': '1.0', 'generation': None,
+                                                         'states': [{'seed': seed, 'len': 9}, {'seed': seed + 1, 'len': 11}]})
+
+        first = train(100)
+        c05_view.forget()
+        handle = projgen.directory(registry).get('pr').get('1.0').get(None)
+        state = asset.State(handle, NODES[:2])
+        loaded = [c05_view.sha(state.load(NODES[0]))]
+        for k in range(between):
+            train(200 + 10 * k)
+        loaded.append(c05_view.sha(state.load(NODES[1])))
+        want = [c05_view.sha(blob({'seed': 100, 'len': 9})), c05_view.sha(blob({'seed': 101, 'len': 11}))]
+        if loaded != want or int(handle.key) != first['generation']:
+            ctx.violation('reader-handle-mixed-generations', f'a reader opened on the latest generation ({first["generation"]}) loaded its '
+                          f'second state after {between} more commit(s): states {loaded} (expected {want}), handle now at generation '
+                          f'{int(handle.key)}', witness)
+    except Exception as err:  # pylint: disable=broad-except
+        ctx.violation('pinned-reader-raises', f'{err!r}', witness)
+    finally:
+        shutil.rmtree(root, ignore_errors=True)
+
+
 def other_filesystem(scratch, label):
     """A fresh directory on a file system other than the scratch one (None if this machine has none)."""
     for base in ('/dev/shm', '/run/shm', '/var/tmp'):
@@ -1102,12 +1145,19 @@ def run(ctx):
             ctx.count('histories_crash_enumerated', int(crash))
             if family == 'random' and index < 3:
                 ctx.sample({'history': [dict(o, states=[s['len'] for s in o['states']]) if o['op'] == 'train' else o for o in ops]})
+    for between in (1, 2, 3):
+        if ctx.mine(between):
+            check_pinned_reader(ctx, scratch, between)
     ctx.note_max('shard_wall_s', round(time.time() - started, 1))
     shutil.rmtree(scratch, ignore_errors=True)
 
 
 def replay(ctx, witness):
     scratch = tempfile.mkdtemp(prefix='c05-replay-')
+    if 'pinned_reader' in witness:
+        check_pinned_reader(ctx, scratch, witness['pinned_reader'])
+        shutil.rmtree(scratch, ignore_errors=True)
+        return
     ops = witness['history']
     history = None
     if witness.get('registry') == 'volatile':
